@@ -256,7 +256,10 @@ def ldsMonitor (ts : List String) : String :=
     | some (v, []) => verdict "ListenerUpdate" v
     | _ => "VIOL unparsable dump"
   | ["tcp", addr, port] =>
-    verdict "ListenerUpdate" (if addr = "-" ∨ port = "-" then some "server listener without address or port" else none)
+    -- the address string is copied from the proto as it is (it may be empty: whether it matches the socket the server
+    -- listens on is checked by xds/server, not by the unmarshaller); the port is always rendered
+    let _ := addr
+    verdict "ListenerUpdate" (if port = "-" then some "server listener without a port" else none)
   | _ => "VIOL unparsable dump"
 
 end GrpcModel.XdsInv
